@@ -116,6 +116,15 @@ func Extra() []bgp.PathAttributeInterface {
 	out = append(out, bgp.NewPathAttributeTunnelEncap([]*bgp.TunnelEncapTLV{bgp.NewTunnelEncapTLV(bgp.TUNNEL_TYPE_VXLAN, []bgp.TunnelEncapSubTLVInterface{
 		bgp.NewTunnelEncapSubTLVEncapsulation(100, []byte{1, 2}), bgp.NewTunnelEncapSubTLVProtocol(0x800), bgp.NewTunnelEncapSubTLVColor(5), ep,
 		bgp.NewTunnelEncapSubTLVUDPDestPort(4789), bgp.NewTunnelEncapSubTLVUnknown(99, []byte{9})})}))
+	// SR policy sub-TLVs, with an MPLS binding SID (a label) and an SRv6 binding SID
+	if b4, err := bgp.NewBSID([]byte{0, 0, 0x5f, 0x01}); err == nil {
+		b16, _ := bgp.NewBSID(netip.MustParseAddr("2001:db8::b51d").AsSlice())
+		out = append(out, bgp.NewPathAttributeTunnelEncap([]*bgp.TunnelEncapTLV{bgp.NewTunnelEncapTLV(bgp.TUNNEL_TYPE_SR_POLICY, []bgp.TunnelEncapSubTLVInterface{
+			bgp.NewTunnelEncapSubTLVSRPreference(0, 11), bgp.NewTunnelEncapSubTLVSRPriority(5), bgp.NewTunnelEncapSubTLVSRCandidatePathName("cp1"),
+			&bgp.TunnelEncapSubTLVSRBSID{TunnelEncapSubTLV: bgp.TunnelEncapSubTLV{Type: bgp.ENCAP_SUBTLV_TYPE_SRBINDING_SID, Length: 6}, Flags: 0x80, BSID: b4}})}))
+		out = append(out, bgp.NewPathAttributeTunnelEncap([]*bgp.TunnelEncapTLV{bgp.NewTunnelEncapTLV(bgp.TUNNEL_TYPE_SR_POLICY, []bgp.TunnelEncapSubTLVInterface{
+			&bgp.TunnelEncapSubTLVSRBSID{TunnelEncapSubTLV: bgp.TunnelEncapSubTLV{Type: bgp.ENCAP_SUBTLV_TYPE_SRBINDING_SID, Length: 18}, Flags: 0x40, BSID: b16}})}))
+	}
 	if tid, err := bgp.NewIngressReplTunnelID(netip.MustParseAddr("10.0.0.10")); err == nil {
 		out = append(out, bgp.NewPathAttributePmsiTunnel(bgp.PMSI_TUNNEL_TYPE_INGRESS_REPL, true, 1000, tid))
 	}
